@@ -191,8 +191,13 @@ def run_check(pid, tier, seed, replay=None):
 
     # ------------------------------------------------------------------ 2. correspondence + oracle
     if replay:
+        if not os.path.isabs(replay):
+            replay = os.path.join(core.VERIF, replay)
         js = json.load(open(replay))
-        cases = [Case(js["block"], tags={"kind": "replay"})] if "block" in js else []
+        tg = js.get("tags") or {}
+        tg = dict(tg) if isinstance(tg, dict) else {}
+        tg.setdefault("kind", "replay")
+        cases = [Case(js["block"], tags=tg)] if "block" in js else []
     else:
         cases = load_corpus(pid) + list(P.cases(rng, tier))
     results, t_real, t_drv = evaluate(P, cases) if cases else ([], 0, 0)
@@ -261,7 +266,7 @@ def run_check(pid, tier, seed, replay=None):
             pass
         replay_file = core.replay_path(pid, "violation")
         core.write_json(replay_file, {
-            "property": pid, "kind": "failing-input", "block": case.block, "failing_line": idx,
+            "property": pid, "kind": "failing-input", "block": case.block, "failing_line": idx, "tags": case.tags,
             "real": [list(map(str, r)) for r in reals], "spec": specs, "detail": detail,
             "how_to_replay": "./check %s --replay %s   (runs the op lines on the real API and on the spec driver)" % (pid, os.path.relpath(core.replay_path(pid, "violation"), core.VERIF)),
             "other_failing_cases": [v[0].block for v in violations[1:20]], "n_failing": len(violations),
